@@ -156,3 +156,37 @@ Proof.
   intros H. destruct (clean_total s) as (r' & H' & Hl). rewrite H in H'.
   injection H' as <-. apply clean_fixed. exact Hl.
 Qed.
+
+(* ---- a non-empty heading is never cleaned to the empty string: with clean_total, the result is a legal anchor ---- *)
+Lemma collapse_nonempty : forall s : list N, s <> [] -> collapse s <> [].
+Proof.
+  intros s Hs. destruct s as [|c t]; [congruence|].
+  cbn [collapse]. destruct t as [|d t']; [discriminate|].
+  destruct ((c =? us) && (d =? us))%bool; discriminate.
+Qed.
+
+Lemma step_nonempty : forall (b : N) (s : list N), s <> [] -> step b s <> [].
+Proof.
+  intros b s Hs. unfold step. apply collapse_nonempty. unfold replace_char.
+  destruct s; [congruence|discriminate].
+Qed.
+
+Lemma clean_fuel_nonempty : forall (f : nat) (s : list N) (i : nat) (r : list N) (n : nat),
+  s <> [] -> clean_fuel f s i = Some (Ok r, n) -> r <> [].
+Proof.
+  induction f as [|f IH]; intros s i r n Hs H; cbn [clean_fuel] in H; destruct (scan s) as [|b|] eqn:E.
+  - injection H as H1 _. subst r. exact Hs.
+  - discriminate.
+  - discriminate.
+  - injection H as H1 _. subst r. exact Hs.
+  - eapply IH; [|exact H]. apply step_nonempty. exact Hs.
+  - discriminate.
+Qed.
+
+Lemma clean_nonempty_legal : forall s r : list N, s <> [] -> clean s = Some (Ok r) -> legal r = true.
+Proof.
+  intros s r Hs H. destruct (clean_total s) as [r' [H' Hr']]. rewrite H in H'. injection H' as ->.
+  destruct Hr' as [He|Hl]; [|exact Hl]. exfalso.
+  unfold clean, clean_iters in H. destruct (clean_fuel (length s) s 0) as [[q n]|] eqn:E; cbn in H; [|discriminate].
+  injection H as ->. eapply clean_fuel_nonempty in E; [|exact Hs]. congruence.
+Qed.
